@@ -46,6 +46,14 @@ Proj(S, s) == [nodes |-> s.nodes, reg |-> s.reg, queue |-> s.queue, active |-> s
 
 FiredOf(line) == IF "fired" \in DOMAIN line THEN line.fired ELSE <<>>
 
+(* the retried requests <<host, container>> by container; the host must be    *)
+(* the one the container runs on                                              *)
+FiredConts(line) == [k \in DOMAIN FiredOf(line) |-> FiredOf(line)[k][2]]
+FiredHostsOk(pre, line) ==
+  \A k \in DOMAIN FiredOf(line) :
+     /\ FiredOf(line)[k][2] \in DOMAIN pre.where
+     /\ pre.where[FiredOf(line)[k][2]] = FiredOf(line)[k][1]
+
 (* the host of the line (reap lines have none: any host will do) *)
 HostOf(S, line) == IF "h" \in DOMAIN line THEN line.h ELSE S.hosts[1]
 
@@ -67,8 +75,9 @@ Exp(S, pre, line) ==
             /\ pre.sess[h] = line.s
             /\ pre.pc[h].k = line.rk /\ pre.pc[h].c = line.rc
             /\ CallDesc(S, pre, h) = [op |-> line.op, path |-> line.path, res |-> line.res]
-            /\ line.fired \in FireOrders(S, pre, h)
-         THEN [ok |-> TRUE, st |-> CallDo(S, pre, h, line.fired)] ELSE bad
+            /\ FiredHostsOk(pre, line)
+            /\ FiredConts(line) \in FireOrders(S, pre, h)
+         THEN [ok |-> TRUE, st |-> CallDo(S, pre, h, FiredConts(line))] ELSE bad
     [] line.ev = "end" ->
          IF /\ CanEnd(S, pre, h)
             /\ pre.pc[h].k = line.k /\ pre.pc[h].c = line.c /\ pre.pc[h].res = line.res
@@ -76,14 +85,15 @@ Exp(S, pre, line) ==
     [] line.ev = "expire" ->
          IF /\ pre.pc[h].ph # "down"
             /\ pre.sess[h] = line.s
-            /\ line.fired \in Orders(ExpireFired(pre, h))
-         THEN [ok |-> TRUE, st |-> ExpireDo(S, pre, h, line.fired)] ELSE bad
+            /\ FiredHostsOk(pre, line)
+            /\ FiredConts(line) \in Orders(ExpireFired(pre, h))
+         THEN [ok |-> TRUE, st |-> ExpireDo(S, pre, h, FiredConts(line))] ELSE bad
     [] line.ev = "crash" ->
          IF pre.pc[h].ph # "down" /\ pre.sess[h] = line.s
          THEN [ok |-> TRUE, st |-> CrashDo(S, pre, h)] ELSE bad
     [] line.ev = "reap" ->
-         IF CanReap(S, pre, line.s, line.fired)
-         THEN [ok |-> TRUE, st |-> ReapDo(S, pre, line.s, line.fired)] ELSE bad
+         IF FiredHostsOk(pre, line) /\ CanReap(S, pre, line.s, FiredConts(line))
+         THEN [ok |-> TRUE, st |-> ReapDo(S, pre, line.s, FiredConts(line))] ELSE bad
     [] line.ev = "restart" ->
          IF CanRestart(S, pre, h, line.rord) /\ line.s = pre.nsess
          THEN [ok |-> TRUE, st |-> RestartDo(S, pre, h, line.rord)] ELSE bad
@@ -114,6 +124,10 @@ Resync(S, pre, line, post) ==
               !.pc[h] = pc,
               !.fs[h] = fs,
               !.order = IF line.ev = "submit" THEN Append(pre.order, line.c) ELSE pre.order,
+              !.where = IF line.ev = "submit" /\ line.c \in DOMAIN pre.where
+                        THEN [pre.where EXCEPT ![line.c] = h] ELSE pre.where,
+              !.placed = IF line.ev = "submit" /\ line.c \in DOMAIN S.inst
+                         THEN [pre.placed EXCEPT ![h] = @ \cup {S.inst[line.c]}] ELSE pre.placed,
               !.nsess = IF line.ev = "restart" THEN line.s + 1 ELSE pre.nsess,
               !.last = NoLast]
 
